@@ -6,6 +6,9 @@ from mc.ref import cone as R
 PROPERTY = 'C08'
 LEVEL = 'exploration'
 FLAVOURS = ('plain', 'asan')
+# plain flavour under the glibc malloc checker: a byte written past the end of a heap block by the (uninstrumented) Fortran
+# library aborts the process in free() and is reported as a killed interpreter
+EXTRA_ENV = {'plain': {'LD_PRELOAD': '/lib/x86_64-linux-gnu/libc_malloc_debug.so.0', 'MALLOC_CHECK_': '3'}}
 RULE = ('every (kernel, cone structure, mnl, flag combination, offset, scaling variant) in the bounded domain; '
         'each case applies the kernel to every standard basis vector and two palette vectors, on the compiled '
         'module, on the in-tree Python fallback (misc.py executed with use_C=False) and on an independent '
